@@ -12,6 +12,14 @@ Theorem C06_phonetic_terminators :
     p_ongoing s' = false /\ R Q c' s' (p_new (p_uac s') (p_sels s')).
 Proof. exact after_terminator. Qed.
 
+(** ... and the same after ANY backspace that returns an empty suggestion (nothing left, or what is left displays as
+    nothing - a lone escape character while the candidate list is off), in any reachable state *)
+Theorem C06_backspace_returning_empty :
+  forall (Q : oracles) uac0 sels0 c s ctrl c' s' o,
+    Reach Q uac0 sels0 c s -> p_step Q c s (PBackspace ctrl) = Some (c', s', o) -> out_empty o = true ->
+    p_ongoing s' = false /\ R Q c' s' (p_new (p_uac s') (p_sels s')).
+Proof. exact after_empty_backspace. Qed.
+
 Theorem C06_related_states_behave_alike :
   forall (Q : oracles) h c s1 s2, R Q c s1 s2 -> hist_ok Q c s1 h ->
     match p_run Q c s1 h, p_run Q c s2 h with
@@ -62,3 +70,18 @@ Proof. vm_compute. repeat split; reflexivity. Qed.
 Print Assumptions C06_phonetic_terminators.
 Print Assumptions C06_related_states_behave_alike.
 Print Assumptions C06_fixed_bisimulation.
+(** the case that made the difference (repaired in /repo): the candidate list off, "`a", backspace - the lone escape
+    character displays as nothing, the suggestion is empty, and now the word is gone too *)
+Definition escape_oracles : oracles :=
+  {| conv := fun s => filter (fun ch => negb (ch =? 96)) (conv test_oracles s); hits := hits test_oracles; edist := edist test_oracles;
+     ac_sys := ac_sys test_oracles; suffix_of := suffix_of test_oracles; emoticon := emoticon test_oracles; emoji_name := emoji_name test_oracles;
+     dict := dict test_oracles; emoji_bn := emoji_bn test_oracles; bijoy := bijoy test_oracles |}.
+Example C06_lone_escape_character :
+  match p_run escape_oracles {| c_english := false; c_suggest := false; c_ansi := false; c_smart := false |} (p_new [] [])
+              [PKey 41 0; PKey 41110 0; PBackspace false] with
+  | Some (_, s, outs) => p_buf s = [] /\ last outs (OUnit, true) = (OSingle [] false, false)
+  | None => False
+  end.
+Proof. vm_compute. split; reflexivity. Qed.
+
+Print Assumptions C06_backspace_returning_empty.
